@@ -453,6 +453,139 @@ class Case:
             self.r.close()
 
 
+def refusal_race(ctx, k):
+    """The transport ends while the application's connect handler is still
+    running (suspended / blocked); the handler then accepts, returns False or
+    raises ConnectionRefusedError.  Whatever the order, once everything has
+    finished the server holds nothing of that client."""
+    import asyncio
+    import threading
+    from engineio import packet as eio_packet
+    from vlib import drive as D
+    from vlib import refcodec as RR
+    rng = ctx.case_rng(9 * 10 ** 7 + k)
+    kind = 'sync' if k % 2 == 0 else 'async'
+    always = rng.random() < 0.6
+    outcome = rng.choice(['false', 'refuse', 'accept'])
+    others = rng.random() < 0.4     # another client in the namespace
+    w = {'part': 'refusal_race', 'case_index': k, 'kind': kind,
+         'always_connect': always, 'handler_outcome': outcome,
+         'another_client_present': others}
+    import socketio
+    state = {'armed': False}
+    if kind == 'async':
+        d = D.AsyncDrive(always_connect=always)
+        entered, release = None, None
+
+        async def on_connect(sid, environ, auth=None):
+            if state['armed']:
+                state['entered'].set()
+                await state['release'].wait()
+                if outcome == 'false':
+                    return False
+                if outcome == 'refuse':
+                    raise socketio.exceptions.ConnectionRefusedError('no')
+        d.sio.on('connect', on_connect, namespace='/')
+        d.sio.on('disconnect', lambda sid, reason: None, namespace='/')
+        del entered, release
+    else:
+        d = D.SyncDrive(always_connect=always)
+        state['entered'] = threading.Event()
+        state['release'] = threading.Event()
+
+        def on_connect(sid, environ, auth=None):
+            if state['armed']:
+                state['entered'].set()
+                state['release'].wait(10)
+                if outcome == 'false':
+                    return False
+                if outcome == 'refuse':
+                    raise socketio.exceptions.ConnectionRefusedError('no')
+        d.sio.on('connect', on_connect, namespace='/')
+        d.sio.on('disconnect', lambda sid, reason: None, namespace='/')
+    try:
+        # warm-up generation and baseline
+        t0 = d.open()
+        t0.connect('/')
+        t0.lose()
+        keep = None
+        if others:
+            keep = d.open()
+            keep.connect('/')
+        d.transports = [t for t in d.transports if t.alive]
+        d.clear_errors()
+        base = G.measure(d.sio, extra_skip=(d,))
+        t = d.open()
+        frame = RR.encode(RR.CONNECT, '/', None, None)[0]
+        state['armed'] = True
+        if kind == 'async':
+            async def go():
+                state['entered'] = asyncio.Event()
+                state['release'] = asyncio.Event()
+                task = asyncio.ensure_future(t.socket.receive(
+                    eio_packet.Packet(eio_packet.MESSAGE, frame)))
+                await state['entered'].wait()
+                await t.socket.close(wait=False, abort=True,
+                                     reason=d.eio.reason.TRANSPORT_ERROR)
+                state['release'].set()
+                await task
+            d.run(go())
+        else:
+            d.autojoin = False
+            th = threading.Thread(target=lambda: t.socket.receive(
+                eio_packet.Packet(eio_packet.MESSAGE, frame)), daemon=True)
+            th.start()
+            if not state['entered'].wait(10):
+                raise core_bug('connect handler was not reached')
+            t.socket.close(wait=False, abort=True,
+                           reason=d.eio.reason.TRANSPORT_ERROR)
+            state['release'].set()
+            th.join(10)
+            d.join()
+        state['armed'] = False
+        d._reap(t)
+        d.transports = [x for x in d.transports if x.alive]
+        d.clear_errors()
+        ctx.count('refusal_races')
+        m = d.sio.manager
+        size = G.measure(d.sio, extra_skip=(d,))
+        w['internals'] = jsonable({
+            'rooms': {str(ns): {str(room): sorted(b.keys())
+                                for room, b in rooms.items()}
+                      for ns, rooms in m.rooms.items()},
+            'pending_disconnect': {str(kk): list(v) for kk, v in
+                                   m.pending_disconnect.items()},
+            'environ_keys': len(d.sio.environ)})
+        if outcome == 'accept' and not always:
+            pass
+        if size[0] != base[0]:
+            w['graph_growth'] = G.diff(base[1], size[1])
+            # an accepted connection whose transport ended while its connect
+            # handler was running is the (listed) teardown race of C04/C20
+            ctx.violation(
+                'session-accepted-during-transport-teardown'
+                if outcome == 'accept' else None,
+                'the transport ended while the connect handler was running '
+                '(handler outcome: %s, always_connect=%s): objects reachable '
+                'from the server grew from %d to %d: %r' % (
+                    outcome, always, base[0], size[0], w['graph_growth']), w)
+            return
+        ctx.case(('refusal_race', kind, always, outcome, others), w)
+    finally:
+        state['armed'] = False
+        try:
+            if kind == 'sync':
+                state['release'].set()
+        except Exception:
+            pass
+        d.close()
+
+
+def core_bug(msg):
+    from vlib import core
+    return core.CheckBug(msg)
+
+
 def renumber(ops, old, new):
     def f(x):
         if isinstance(x, list):
@@ -484,6 +617,8 @@ def f2(v, old, new):
 
 
 def run_case(ctx, k):
+    if k % 5 == 3:
+        refusal_race(ctx, k)
     rng = ctx.case_rng(k)
     c = Case(ctx, rng, 'sync' if k % 2 == 0 else 'async', k)
     try:
@@ -512,6 +647,7 @@ def run(ctx):
         'has gone" holds after every generation']
     ctx.require('generations', 50)
     ctx.require('fault_positions', 30)
+    ctx.require('refusal_races', 10)
     ctx.require('residue_checks', 50)
     ctx.require('graph_size_comparisons', 40)
     ctx.require('probe_traces_compared', 5)
@@ -526,4 +662,6 @@ def run(ctx):
 
 
 def replay(ctx, w):
+    if w['witness'].get('part') == 'refusal_race':
+        return refusal_race(ctx, w['witness']['case_index'])
     run_case(ctx, w['witness']['case_index'])
